@@ -121,7 +121,19 @@ class Impl:
         self.st.numeric_default = dict(self.tab.numeric_default)
         self.st.logical_types = dict(self.tab.types)
         self.st.connect()
-        self.cfg = TorConfig(self.st.proto)
+        if case.get('probe_first'):
+            # the way launch() builds its configuration: an object without a connection, looked at (under whatever
+            # spelling the application uses) before it is attached to Tor
+            self.cfg = TorConfig()
+            for n in self.tab.names:
+                for spelling in {n, (case.get('reads_as') or {}).get(n, n)}:
+                    try:
+                        getattr(self.cfg, spelling)
+                    except Exception:
+                        pass
+            self.cfg.attach_protocol(self.st.proto)
+        else:
+            self.cfg = TorConfig(self.st.proto)
         assert self.cfg.post_bootstrap.called, 'config bootstrap did not finish'
         res = []
         self.cfg.post_bootstrap.addErrback(lambda f: res.append(f) and None)
